@@ -887,7 +887,7 @@ class DirStateWorkingTree(InventoryWorkingTree):
                     try:
                         osutils.rename(from_rel_abs, to_rel_abs)
                     except OSError as e:
-                        raise errors.BzrMoveFailedError(from_rel, to_rel, e[1]) from e
+                        raise errors.BzrMoveFailedError(from_rel, to_rel, e.strerror) from e
                     rollbacks.callback(osutils.rename, to_rel_abs, from_rel_abs)
                 try:
                     # perform the rename in the inventory next if needed: its easy
